@@ -30,14 +30,17 @@ from twisted.internet.testing import StringTransport
 from zope.interface import directlyProvides, implementer, providedBy
 
 STREAMS = ['lines-exhaustive', 'lines-random', 'lines-malformed', 'cookie-env', 'handshake-spec-server',
-           'handshake-sequence', 'own-bus-handshake', 'handshake-interleaved', 'kind-flip-sequence', 'history-repeat']
+           'handshake-sequence', 'own-bus-handshake', 'handshake-interleaved', 'kind-flip-sequence', 'history-repeat',
+           'non-ascii-user']
 THEOREMS = ['begin_only_after_ok', 'begin_only_after_ok_of_current_mechanism', 'authenticated_iff_begin',
             'mechanisms_once_in_order', 'moves_on_after_rejected_or_error', 'no_stall', 'no_stall_run',
             'no_complete_line_buffered', 'framing_independent_of_reads', 'line_delivered_in_pieces',
             'exhaustion_closes', 'unknown_line_closes', 'silent_after_close',
             'completes_against_spec_server', 'completes_against_spec_server_bytes', 'handlerWords_table',
-            'own_bus_handshake_completes', 'own_bus_handshake_progress', 'own_bus_no_early_binary',
-            'own_bus_reachable_safe', 'own_bus_begin_only_after_bus_ok', 'own_bus_mechanism',
+            'own_bus_handshake_completes', 'own_bus_handshake_progress', 'own_bus_handshake_terminates',
+            'own_bus_handshake_always_completes', 'own_bus_no_early_binary_partial', 'own_bus_reachable_safe_partial',
+            'own_bus_line_mode_binary_empty', 'own_bus_bus_is_c06_run', 'own_bus_bus_authenticated_only_after_accept',
+            'own_bus_begin_only_after_bus_ok', 'own_bus_expected_mechanism_unfolded', 'driver_sha1_length',
             'own_bus_cookie_when_shared_keyring',
             'own_bus_cookie_requires']
 TRUSTED_BASE = [
@@ -220,6 +223,15 @@ class World:
 
             def urandom(self, n):
                 return world.env.urandom(n)
+
+            def geteuid(self):
+                e = world.env
+                return e.geteuid() if hasattr(e, 'geteuid') else os.geteuid()
+
+            def mkdir(self, path, *a, **kw):
+                os.mkdir(path, *a, **kw)
+                if hasattr(world.env, 'after_mkdir'):
+                    world.env.after_mkdir(path)
 
         class GetPass:
             def getuser(self):
@@ -1436,6 +1448,12 @@ class OwnEnv:
         self.home = os.path.join(root, spec['chome'])
         self.keyrings = [os.path.join(root, h, '.dbus-keyrings') for h in OWN_HOMES]
         self.calls = 0
+        self.calls_bus = 0
+        self.side = 'client'
+        real = os.geteuid()
+        # the two processes' effective uids (faked only when the harness itself is root; both in the fake passwd)
+        self.bus_euid = spec.get('beuid', real) if real == 0 else real
+        self.client_euid = spec.get('ceuid', real) if real == 0 else real
         self.users = [(u[0], u[1], u[2], os.path.join(root, u[3])) for u in own_users()]
         os.mkdir(root)
         for h in OWN_HOMES:
@@ -1460,7 +1478,7 @@ class OwnEnv:
         # what the model is told about the client's keyring directory before the connection
         try:
             st = os.stat(os.path.join(self.home, '.dbus-keyrings'))
-            self.init_stat = '%d:%d' % (st.st_mode, 1 if st.st_uid == os.geteuid() else 0)
+            self.init_stat = '%d:%d' % (st.st_mode, 1 if st.st_uid == self.client_euid else 0)
         except OSError:
             self.init_stat = '0:0'
         self.dir_before = {h: self.dir_state(h) for h in OWN_HOMES}
@@ -1474,7 +1492,28 @@ class OwnEnv:
     def urandom(self, n):
         r = own_rnd(self.calls, n)
         self.calls += 1
+        if self.side == 'bus':
+            self.calls_bus += 1
         return r
+
+    def geteuid(self):
+        return self.bus_euid if self.side == 'bus' else self.client_euid
+
+    def after_mkdir(self, path):
+        # a directory belongs to the process that created it: the bus's (faked) euid
+        if self.side == 'bus' and self.bus_euid != os.geteuid():
+            os.chown(path, self.bus_euid, self.bus_euid)
+
+    def created_owned(self):
+        """'-' when the bus created no keyring directory in this run; otherwise does the client's euid own it?"""
+        for h in OWN_HOMES:
+            if self.dir_before[h] == 'a':
+                try:
+                    st = os.stat(os.path.join(self.root, h, '.dbus-keyrings'))
+                except OSError:
+                    continue
+                return '1' if st.st_uid == self.client_euid else '0'
+        return '-'
 
     def dir_state(self, h):
         dk = os.path.join(self.root, h, '.dbus-keyrings')
@@ -1499,7 +1538,7 @@ class OwnEnv:
         for h in OWN_HOMES:
             e = self.file_entries(h)
             if e is not None:
-                fs.append(hx(h.encode()) + ':' + '/'.join('%d.%s' % (int(x[0]), hx(x[2])) for x in e))
+                fs.append(hx(h.encode()) + ':' + '/'.join('%d.%d.%s' % (int(x[0]), int(x[1]), hx(x[2])) for x in e))
             d = self.dir_state(h)
             if d != 'a':
                 ds.append(hx(h.encode()) + ':' + d)
@@ -1615,11 +1654,13 @@ class OwnBus:
             n = cur.getMechanismName()
             cur = hx(n.encode() if isinstance(n, str) else bytes(n))
         fs = env.fs_obs()
-        return ('sent=%s closed=%d auth=%d crashed=%d guid=%s bin=%s handed=%s state=%s rejects=%s cur=%s files=%s dirs=%s'
+        return ('sent=%s closed=%d auth=%d crashed=%d guid=%s bin=%s first=%d buf=%s handed=%s state=%s rejects=%s cur=%s '
+                'files=%s dirs=%s rnd=%d owned=%s'
                 % (hxs_(self.sent_lines()), bool(self.t.disconnecting), authed, self.crash is not None,
                    'none' if g is None else hx(g), hx(self.raw + (p._buffer if authed else b'')),
+                   bool(p._firstByte), '-' if authed else hx(p._buffer),
                    hxs_(self.handed), getattr(a, 'state', '?'), getattr(a, 'reject_count', '?'),
-                   'none' if cur is None else cur, fs[0], fs[1]))
+                   'none' if cur is None else cur, fs[0], fs[1], env.calls_bus, env.created_owned()))
 
 
 def hxs_(lst):
@@ -1636,7 +1677,8 @@ def own_gen_spec(rng):
     chome = home_of.get(user, 'hX') if rng.random() < 0.75 else rng.choice(OWN_HOMES)
     spec = {'unix': rng.random() < 0.5, 'ukind': rng.choice(['class', 'instance']),
             'creds': rng.choice([None, None, None, 0, 1000, 5555, -1]),
-            'user': user, 'chome': chome, 'dirs': {}, 'files': {}, 'frac': rng.random() < 0.5}
+            'user': user, 'chome': chome, 'dirs': {}, 'files': {}, 'frac': rng.random() < 0.5,
+            'beuid': rng.choice([0, 0, 1000]), 'ceuid': rng.choice([0, 0, 1000])}
     for h in OWN_HOMES:
         st = rng.choice(['absent', 'absent', 'good', 'good', 'good', 'good711', 'notowned', 'bad777', 'bad740', 'file'])
         spec['dirs'][h] = st
@@ -1706,12 +1748,11 @@ def own_expected_mechanism(spec, env):
         return b'ANONYMOUS'                         # the bus refuses the keyring directory
     if spec['chome'] != ent[3]:
         return b'ANONYMOUS'                         # the client reads another keyring: it cannot know the cookie
-    eu = os.geteuid()
     if before == 'a':
-        owner = ent[1] if eu == 0 else eu           # created by the bus (root: chowned to the user)
+        owner = ent[1] if env.bus_euid == 0 else env.bus_euid      # created by the bus (root: chowned to the user)
     else:
         owner = env.owner_before[ent[3]]
-    return b'DBUS_COOKIE_SHA1' if owner == eu else b'ANONYMOUS'
+    return b'DBUS_COOKIE_SHA1' if owner == env.client_euid else b'ANONYMOUS'
 
 
 def own_run(world, tmp, spec, rng=None, schedule=None, ctxname=None):
@@ -1738,7 +1779,9 @@ def own_run(world, tmp, spec, rng=None, schedule=None, ctxname=None):
             saved_funcs = None
         world.set_env(env)
         world.current = None
+        env.side = 'bus'
         busd = OwnBus(world, spec['creds'])
+        env.side = 'client'
         s = Session(world, spec['unix'], env, ukind=spec.get('ukind', 'class'))
         c2s, s2c = bytearray(), bytearray()
         cpos = [0]
@@ -1781,6 +1824,8 @@ def own_run(world, tmp, spec, rng=None, schedule=None, ctxname=None):
         check_step()
         used = []
         policy = own_gen_schedule_policy(rng) if rng is not None else None
+        # a quarter of the random schedules stop somewhere in the middle: the model is compared on intermediate states too
+        stop_after = rng.randrange(0, 60) if rng is not None and rng.random() < 0.25 else None
         k = 0
         while True:
             if schedule is not None:
@@ -1788,6 +1833,8 @@ def own_run(world, tmp, spec, rng=None, schedule=None, ctxname=None):
                     break
                 d, n = schedule[k]
             else:
+                if stop_after is not None and k >= stop_after:
+                    break
                 if (not c2s and not s2c) or k >= 6000:
                     if not c2s and not s2c and rng.random() < 0.3:
                         used.append((rng.choice(['S', 'C']), rng.randrange(0, 9)))   # a move when nothing is queued
@@ -1801,7 +1848,9 @@ def own_run(world, tmp, spec, rng=None, schedule=None, ctxname=None):
             data = bytes(q[:n + 1])
             del q[:n + 1]
             if d == 'S':
+                env.side = 'bus'
                 busd.feed(data)
+                env.side = 'client'
             else:
                 s.feed(data)
             pump()
@@ -1845,11 +1894,11 @@ def own_driver_line(r):
     sched = ','.join('%s%d' % (d, n) for d, n in r['schedule']) or '-'
     return ' '.join(['hs2', '1' if spec['unix'] else '0', hx(OWN_GUID), hx(r['hello'] or OWN_HELLO_DEFAULT),
                      hx(spec['user'].encode('ascii')), hx(spec['chome'].encode()), r['init_stat'],
-                     '1' if os.geteuid() == 0 else '0', str(os.geteuid()), r['world'], errs, sched])
+                     str(r['env'].bus_euid), str(r['env'].client_euid), r['world'], errs, sched])
 
 
 def own_strip_rnd(model_out):
-    return re.sub(r' rnd=\d+', '', model_out) if model_out is not None else None
+    return model_out           # the bus's os.urandom calls are compared now
 
 
 def own_judge(ctx, world, r, m, stream='own-bus-handshake'):
@@ -1875,6 +1924,9 @@ def own_judge(ctx, world, r, m, stream='own-bus-handshake'):
             toks = l.split()
             mech = toks[1] if len(toks) > 1 else b''
     ctx.stat('own:policy=%s' % r['policy'])
+    ctx.stat('own:euids=bus%d/client%d:%s' % (r['env'].bus_euid, r['env'].client_euid, r['busobs'].rsplit('owned=', 1)[1]))
+    if not r['quiescent']:
+        ctx.stat('own:truncated-schedule')
     path = []
     for e in r['events']:
         if e.startswith('S:'):
@@ -1884,7 +1936,13 @@ def own_judge(ctx, world, r, m, stream='own-bus-handshake'):
     ctx.stat('own:path=' + '/'.join(path).replace('DBUS_COOKIE_SHA1', 'COOKIE').replace('NEGOTIATE_UNIX_FD', 'NEG'))
     ctx.stat('own:moves=%s' % (len(r['schedule']) if len(r['schedule']) < 10 else '%d+' % (len(r['schedule']) // 10 * 10)
                                if len(r['schedule']) < 100 else '100+'))
-    if r['quiescent']:
+    want = own_expected_mechanism(spec, r['env'])
+    offered = set(world.authentication.BusAuthenticator.authenticators)
+    if r['quiescent'] and want not in offered:
+        # a bus configured without the mechanism the environment would end with (e.g. no ANONYMOUS): C07 promises
+        # completion only against a server that accepts one of the client's mechanisms - nothing is demanded
+        ctx.stat('own:expected-mechanism-not-offered-by-bus')
+    elif r['quiescent']:
         done = bool(s.p._authenticated) and bool(busd.p._authenticated)
         closed = bool(s.t.disconnecting) or bool(busd.t.disconnecting)
         ctx.stat('own:%s:%s:%s' % ('unix' if spec['unix'] else 'tcp', (mech or b'?').decode('ascii', 'replace'),
@@ -1906,7 +1964,6 @@ def own_judge(ctx, world, r, m, stream='own-bus-handshake'):
             if r['begins'] != 1:
                 ctx.violation('own-bus-begin-not-once', 'the client wrote BEGIN %d times' % r['begins'], inp=shown,
                               observed=impl, expected='exactly one BEGIN')
-            want = own_expected_mechanism(spec, r['env'])
             order = list(world.preference)
             ctx.stat('own:mechanism-%s' % ('as-expected' if mech == want else 'differs'))
             # only the clear direction is a violation: a mechanism the client prefers was available to both sides,
@@ -1943,6 +2000,7 @@ def run_own_bus(ctx, world, tmp, rng):
                     home_of = {'root': 'hR', '0': 'hR', 'alice': 'hA', '1000': 'hA'}
                     chome = home_of.get(user, 'hX')
                     base.append({'unix': unix, 'ukind': 'class' if creds is None else 'instance', 'creds': creds,
+                                 'beuid': 1000 if dstate == 'absent' and unix else 0, 'ceuid': 1000 if user == 'alice' else 0,
                                  'user': user, 'chome': chome, 'dirs': {h: dstate for h in OWN_HOMES},
                                  'files': {h: [[1, 3, 'aabbcc'], [2, 500, 'feed']] for h in OWN_HOMES} if dstate == 'good' else {},
                                  'frac': unix})
@@ -2262,6 +2320,48 @@ def confirm_replays(ctx, world):
         v['input'] = {'kind': 'process-history', 'seed': ctx.seed, 'tier': ctx.tier, 'case': inp}
         v['what'] += ' [history-dependent: shows only after other cases ran in the same process; replay runs the whole sequence again]'
 
+
+# --------------------------------------------------------------------------------------------
+# a login name that is not ASCII (implementation only; the model assumes `getpass.getuser().encode('ascii')` succeeds).
+# PROPOSED FINDING non-ascii-user-does-not-move-on, repair fixes/C07-06-non-ascii-login-name-skips-cookie.patch: until the owner
+# has applied it to /repo the stream only RECORDS the behaviour (distribution key `proposed-finding:...`, a note); set
+# JUDGE_NON_ASCII_USER = True with the repair and the unrepaired behaviour is reported as a violation with a replay.
+JUDGE_NON_ASCII_USER = False
+NON_ASCII_USERS = ('m\u00fcller', '\u0418\u0432\u0430\u043d')
+
+
+def run_non_ascii_user(ctx, world, tmp, only=None):
+    home = os.path.join(tmp, 'nonascii-home')
+    if not os.path.isdir(home):
+        os.mkdir(home)
+    for user in NON_ASCII_USERS:
+        env = KeyEnv('nonascii', home, user, {}, RND)
+        envs1 = {'nonascii': env}
+        for acc in ([b'ANONYMOUS'], [b'DBUS_COOKIE_SHA1', b'ANONYMOUS'], [b'EXTERNAL']):
+            for unix in (False, True):
+                cfg = {'accepts': acc, 'unix': unix, 'fd_agree': unix, 'env': 'nonascii'}
+                shown = {'kind': 'nonascii', 'user': user, 'accepts': [a.decode() for a in acc], 'unix': unix}
+                if only is not None and only != shown:
+                    continue
+                transcript, s, srv = spec_handshake(world, envs1, cfg)
+                done = bool(s.p._authenticated) and srv.state == 'Authenticated'
+                ctx.case('non-ascii-user', sample=shown)
+                ctx.impl_trace()
+                ctx.stat('non-ascii-user:%s' % ('complete' if done else 'incomplete:' + (s.crash or 'no-exception')))
+                if not done:
+                    what = ('login name %r (not ASCII): against a reference server accepting %s the handshake does not '
+                            'complete - %s escapes dataReceived when the client should move on to the next mechanism'
+                            % (user, '+'.join(shown['accepts']), s.crash or 'nothing'))
+                    if JUDGE_NON_ASCII_USER:
+                        ctx.violation('non-ascii-user-does-not-move-on', what, inp=shown, observed=' '.join(transcript),
+                                      expected='the client skips DBUS_COOKIE_SHA1 or closes in order; with ANONYMOUS or '
+                                               'EXTERNAL accepted the handshake completes')
+                    else:
+                        ctx.stat('proposed-finding:non-ascii-user-does-not-move-on')
+    if not JUDGE_NON_ASCII_USER and ctx.stats.get('proposed-finding:non-ascii-user-does-not-move-on'):
+        ctx.note('PROPOSED FINDING (not judged until fixes/C07-06 is applied and JUDGE_NON_ASCII_USER is set): a login name '
+                 'that is not ASCII makes UnicodeEncodeError escape dataReceived after REJECTED; the client never offers ANONYMOUS')
+
 # --------------------------------------------------------------------------------------------
 def random_lines_case(rng, envs, alphabet, maxlen, env_names):
     n = rng.randrange(1, maxlen + 1)
@@ -2328,6 +2428,8 @@ def _run(ctx, world, envs, tmp):
             judge_multi(ctx, world, 'handshake-interleaved', [{'sessions': inp['sessions'], 'actions': inp['actions']}], envs)
         elif inp.get('kind') == 'history':
             judge_history(ctx, world, envs, inp['cases'])
+        elif inp.get('kind') == 'nonascii':
+            run_non_ascii_user(ctx, world, tmp, only={k: inp[k] for k in ('kind', 'user', 'accepts', 'unix')})
     if corpus_cases:
         batch(ctx, world, 'lines-exhaustive', corpus_cases, envs)
 
@@ -2442,6 +2544,9 @@ def _run(ctx, world, envs, tmp):
     # with the composed model (Auth/Handshake2.lean)
     run_own_bus(ctx, world, tmp, rng)
 
+    # a login name outside ASCII (implementation only; proposed finding, see JUDGE_NON_ASCII_USER)
+    run_non_ascii_user(ctx, world, tmp)
+
     # several connections alive at once, each with its own environment and transport kind; kind flips within one
     # transport class (state that leaks between connections, instances, classes)
     run_state_streams(ctx, world, envs, rng, alphabet)
@@ -2487,6 +2592,8 @@ def replay(ctx, data):
                                 deliver=delivery_by_name(inp['delivery']), base=base[0])
         elif kind == 'ownbus':
             own_replay(ctx, world, tmp, inp)
+        elif kind == 'nonascii':
+            run_non_ascii_user(ctx, world, tmp, only={k: inp[k] for k in ('kind', 'user', 'accepts', 'unix')})
         elif kind == 'multi':
             judge_multi(ctx, world, 'replay', [{'sessions': inp['sessions'], 'actions': inp['actions']}], envs)
         elif kind == 'history':
